@@ -78,11 +78,12 @@ SIMS = [
     {'host': 'dev1', 'port': 8081, 'poll': False,
      'attrs': {'name': 'slv1', 'display_name': 'S 1', 'version': '1', 'api_version': '1.0', 'vendor': 'x', 'flags': ['expressions'],
                'uptime': 5, 'date': 1},
-     'ports': [dict(SIM_PORT, id='p1', value=3), dict(SIM_PORT, id='p2', type='boolean', value=False, writable=False)]},
+     'ports': [dict(SIM_PORT, id='p1', value=3), dict(SIM_PORT, id='p2', type='boolean', value=False, writable=False),
+               dict(SIM_PORT, id='floor1.lamp', value=1)]},        # remote ids may contain dots (ports of a device that is a master)
     {'host': 'dev2', 'port': 8082, 'poll': True,
      'attrs': {'name': 'slv2', 'display_name': '', 'version': '1', 'api_version': '1.0', 'vendor': 'x', 'flags': ['expressions'],
                'uptime': 5, 'date': 1},
-     'ports': [dict(SIM_PORT, id='q1', value=10)]},
+     'ports': [dict(SIM_PORT, id='q1', value=10), dict(SIM_PORT, id='slv1.p1', value=4)]},
 ]
 
 
@@ -162,7 +163,7 @@ def gen_case(rng, idx):
     ops = []
     port_ids = ['h1', 'h2', 'h3'] + VPORT_IDS
     if with_slaves:
-        port_ids += ['slv1.p1', 'slv1.p2', 'slv2.q1']
+        port_ids += ['slv1.p1', 'slv1.p2', 'slv2.q1', 'slv1.floor1.lamp', 'slv2.slv1.p1']
     # most histories start by creating something to edit
     for pid in rng.sample(VPORT_IDS, rng.choice([1, 2, 2, 3])):
         ops.append(gen_vport(rng, pid))
@@ -250,6 +251,16 @@ def gen_case(rng, idx):
                             'listen_enabled': None if sim['poll'] else False})
         else:
             ops.append({'op': 'sleep', 's': rng.choice([0.1, 1.0, 2.5])})
+    # idempotent re-submissions: the same request twice; the device backup just taken restored (PUT /device) with nothing after it
+    for i in range(len(ops) - 1, -1, -1):
+        if ops[i]['op'] in ('patch_port', 'patch_device', 'patch_slave', 'forward') and rng.random() < 0.08:
+            ops.insert(i + 1, json.loads(json.dumps(ops[i])))
+    if rng.random() < 0.3:
+        if rng.random() < 0.5:
+            ops.append({'op': 'patch_device', 'attrs': {'display_name': rng.choice(SPECIAL_STRINGS), 'admin_password': rng.choice(['', 'secret', 'p"w\\'])}})
+        ops.append({'op': 'put_device_backup'})
+    elif rng.random() < 0.1:
+        ops.insert(rng.randrange(len(ops) + 1), {'op': 'put_device_backup'})
     return {'name': 'c%d' % idx, 'history': history, 'static': STATIC, 'sims': SIMS if with_slaves else [], 'ops': ops}
 
 
@@ -643,6 +654,17 @@ def model_tie(ctx, res, cases, results, name):
                     owners.append((ci, 'slave', s['name']))
                 except ValueError as e:
                     res['tie_failures'].append('cannot encode slave %s: %s' % (s['name'], e))
+        # ports of permanently offline slaves: reloaded from the slave_ports records by the prefix rule
+        after = r['after']
+        stored_ids = [x['id'] for x in store.get('slave_ports', [])]
+        for sl in after['devices']:
+            if sl.get('enabled') and not sl.get('poll_interval') and not sl.get('listen_enabled'):
+                own = lambda obs: sorted(v[1] for v in obs['internals'].get('slave_port_owners', {}).values() if v[0] == sl['name'])  # noqa: E731
+                if any(b['name'] == sl['name'] and b.get('enabled') and not b.get('poll_interval') and not b.get('listen_enabled')
+                       for b in before['devices']):
+                    items.append('(LC %s %s %s %s)' % (c_str(sl['name']), coq.lst(stored_ids, c_str), coq.lst(own(before), c_str),
+                                                      coq.lst(own(after), c_str)))
+                    owners.append((ci, 'ports of slave', sl['name']))
         # live sets over the history
         hops = hub_ops(case, r['log'])
         items.append('(HC %s %s %s %s %s %s)' % (
@@ -656,7 +678,7 @@ def model_tie(ctx, res, cases, results, name):
         shards.append('Definition cases : list tcase := [\n  %s].\n' % ';\n  '.join(items[i:i + 400]))
         offs.append(i)
     t0 = _time.time()
-    outs = coq.eval_shards(ctx.workdir, name, HEADER, shards, ['bad_model cases', 'bad_spec cases'])
+    outs = coq.eval_shards(ctx.workdir, name, HEADER, shards, ['bad_model cases', 'bad_spec cases'], jobs=2)
     ctx.log('%s: %d model items in %d shards, coqc %.1fs' % (name, len(items), len(shards), _time.time() - t0))
     res['extra']['model_items'] = res['extra'].get('model_items', 0) + len(items)
     for (rc, lists, text), off in zip(outs, offs):
@@ -724,6 +746,8 @@ def describe(op):
         return 'PATCH /ports/%s/value %s' % (op['id'], json.dumps(op['value']))
     if k == 'patch_device':
         return 'PATCH /device %s' % json.dumps(op['attrs'])
+    if k == 'put_device_backup':
+        return 'GET /device, then PUT /device with the document just received'
     if k == 'add_slave':
         return 'POST /devices %s' % json.dumps({x: op[x] for x in op if x != 'op'})
     if k == 'patch_slave':
